@@ -50,7 +50,8 @@ class Work:
                 sim.sleep(spec["ms"] / 1000.0)
                 return
             delay = 0 if spec["kind"] == "imm" else max(0, spec["ms"]) * 1000
-            rec = acts[aid] = {"id": aid, "kind": spec["kind"], "inv": sim.tick(), "ret": None, "due": sim.now + delay, "due_hi": None,
+            exact = spec["kind"] == "abs"  # an absolute due time counted from the run's base instant: two of them can be EQUAL
+            rec = acts[aid] = {"id": aid, "kind": spec["kind"], "inv": sim.tick(), "ret": None, "due": (base[0] + delay) if exact else sim.now + delay, "due_hi": None, "exact": exact,
                                "start": None, "end": None, "start_t": None, "thread": None, "runs": 0, "parent": parent,
                                "sched_thread": sim.current.name, "key": tramp_key(), "cancel_ret": None, "cancel_strict": False}
 
@@ -73,12 +74,16 @@ class Work:
 
             if spec["kind"] == "imm":
                 disps[aid] = sch.schedule(action)
+            elif exact:
+                from datetime import timedelta
+                disps[aid] = sch.schedule_absolute(base[1] + timedelta(milliseconds=max(0, spec["ms"])), action)
             else:
                 disps[aid] = sch.schedule_relative(spec["ms"] / 1000.0, action)
-            rec["due_hi"] = sim.now + delay
+            rec["due_hi"] = rec["due"] if exact else sim.now + delay
             rec["ret"] = sim.tick()
 
         sim.mark()
+        base = (sim.now, sim.utcnow())
 
         def worker(ops):
             def run():
@@ -98,11 +103,11 @@ class Prop:
     thorough_runs = 300000
     chunk = 100
     time_unit = "simulated seconds"
-    rule = ("1-2 controlled threads run seeded trees of nested schedule / schedule_relative / cancel calls on (a) the current-thread "
+    rule = ("1-2 controlled threads run seeded trees of nested schedule / schedule_relative / schedule_absolute (due times counted from one base instant, so that equal ones occur) / cancel calls on (a) the current-thread "
             "scheduler singleton, (b) one CurrentThreadScheduler instance used by both threads (per-thread trampolines) and (c) one "
             "TrampolineScheduler shared by both threads, with 0-3 forced pre-emptions (site-first sampling over a dry run), spurious "
             "Condition wake-ups and clock drift. Checked: one action at a time per trampoline; a nested schedule starts only after its "
-            "parent returned; an action submitted before another with an earlier due time (or both immediate) starts first; never "
+            "parent returned; an action submitted before another with an earlier due time (or both immediate, or both with the same absolute due time) starts first; never "
             "before its due time; a same-thread cancel (or a cross-thread cancel that returned while the draining thread was blocked or "
             "inside another action) means the action never starts; current-thread actions run on the scheduling thread; every action "
             "whose schedule call returned and that was not cancelled has run at quiescence. Distinct = (mode, scripts, context-switch "
@@ -115,7 +120,7 @@ class Prop:
         nid = [0]
 
         def node(depth):
-            k = rng.choice(["imm", "imm", "imm", "rel"])
+            k = rng.choice(["imm", "imm", "imm", "rel", "abs"])
             spec = {"id": nid[0], "kind": k, "ms": rng.choice([0, 1, 5, 10, 30, -5]), "children": []}  # (a negative relative time means "now")
             nid[0] += 1
             if depth < 3:
@@ -192,7 +197,8 @@ class Prop:
                 if a is b or a["key"] != b["key"] or a["ret"] is None or a["ret"] >= b["inv"]:
                     continue
                 both_imm = a["kind"] == "imm" and b["kind"] == "imm"
-                if (a["due_hi"] < b["due"] or both_imm) and a["start"] > b["start"]:
+                tie = a.get("exact") and b.get("exact") and a["due"] == b["due"]  # equal due times: first scheduled first
+                if (a["due_hi"] < b["due"] or both_imm or tie) and a["start"] > b["start"]:
                     bad("order", "action %s (submitted first, due %d) started after action %s (due %d)" % (a["id"], a["due"], b["id"], b["due"]))
         if not sim.failure:
             lost = [a["id"] for a in acts if a["ret"] is not None and a["start"] is None and a["cancel_ret"] is None]
